@@ -322,8 +322,99 @@ if got != exp: reproduced(f"clog2({{N}}) = {{got}}, specified {{exp}}")
   return res.r
 
 
+def item_clog2_table(it):
+  """clog2 around every power of two up to 2^1100 (where a floating-point implementation rounds): a finite table
+  compared directly -- libm is a C boundary, beyond the stub's stated contract nothing can be said symbolically"""
+  cover.start()
+  sp.setup()
+  from specs.bits_spec import py_clog2
+  HP = sp.HP
+  res = Result("clog2/table")
+  seen = set()
+  for k in range(0, 1101):
+    for N in (2 ** k - 1, 2 ** k, 2 ** k + 1, 2 ** k + 2 ** (k // 2), 3 * 2 ** k, 2 ** k + 3, 2 ** (k + 1) - 2 ** (k // 3)):
+      if N <= 0 or N in seen: continue
+      seen.add(N)
+      res['obligations'] += 1; res['states'] += 1
+      try: got = HP.clog2(N)
+      except Exception as e: got = type(e).__name__
+      if got == py_clog2(N): res['discharged'] += 1
+      elif len(res['violations']) < 3:
+        res['violations'].append(dict(key='helpers.clog2', what=f"clog2({N}) = {got}, specified {py_clog2(N)} (N = 2^{k} + {N - 2 ** k})",
+                                      replay=f'''
+sys.path.insert(0, '/verif')
+from specs.bits_spec import py_clog2
+from pymtl3.datatypes import clog2
+N = {N}
+try: got = clog2(N)
+except Exception as e: got = type(e).__name__
+if got != py_clog2(N): reproduced(f"clog2({{N}}) = {{got}}, specified {{py_clog2(N)}}")
+'''))
+  res['transitions'] = res['states']
+  res['twins_expected'] = 0
+  res['distinct'].append('clog2/table')
+  res['samples'].append(f"clog2 table: {len(seen)} values around the powers of two up to 2^1100")
+  return res.r
+
+
+REPLAY_SEQ = '''
+sys.path.insert(0, '/verif')
+from checks.c05 import sequence_problem
+msg = sequence_problem(%(upto)d)
+if msg: reproduced(msg)
+'''
+
+
+def _seq_ops():
+  ops = []
+  for n in (8, 64, 300, 520, 1023):
+    pairs = [(0, n), (0, 1), (n - 1, n), (1, 5), (2, 5), (3, 7), (0, min(261, n)), (1, min(261, n)), (0, min(517, n)), (2, min(517, n)), (256, min(300, n)), (255, min(257, n)),
+             (n // 2, n // 2 + 3), (n // 3, 2 * n // 3), (5, min(n, 6))]
+    for lo, hi in pairs:
+      if 0 <= lo < hi <= n: ops.append((n, lo, hi))
+  return ops + list(reversed(ops)) + ops[::3]
+
+
+def sequence_problem(upto=None):
+  """many slice/bit writes and reads on values of several widths in ONE process, in an order that revisits the same bounds
+  on other widths (state kept between calls -- caches, tables -- must not leak from one call into the next)"""
+  from pymtl3.datatypes import Bits
+  ops = _seq_ops()
+  for k, (n, lo, hi) in enumerate(ops[:upto]):
+    M = (1 << n) - 1
+    for pat in (M, 0, int('a5' * 256, 16) & M):
+      x = Bits(n, pat)
+      v = (int('3c' * 256, 16) >> (k % 7)) & ((1 << (hi - lo)) - 1)
+      x[lo:hi] = v
+      want = (pat & ~(((1 << (hi - lo)) - 1) << lo) & M) | (v << lo)
+      if int(x) != want: return f"step {k}: Bits{n}({pat:#x})[{lo}:{hi}] = {v:#x} gives {int(x):#x}, expected {want:#x} (after {k} earlier writes in this process)"
+      r = x[lo:hi]
+      if int(r) != v or r.nbits != hi - lo: return f"step {k}: reading Bits{n}[{lo}:{hi}] back gives {r!r}, expected {v:#x} ({hi - lo} bits)"
+      x[lo] = 1 - ((pat >> lo) & 1)
+      want2 = want ^ ((((want >> lo) & 1) ^ (1 - ((pat >> lo) & 1))) << lo)
+      if int(x) != want2: return f"step {k}: Bits{n}[{lo}] = {1 - ((pat >> lo) & 1)} gives {int(x):#x}, expected {want2:#x}"
+  return None
+
+
+def item_sequence(it):
+  cover.start()
+  res = Result("index/sequence")
+  n = len(_seq_ops())
+  res['obligations'] = n; res['states'] = n; res['transitions'] = n
+  msg = sequence_problem()
+  if msg is None: res['discharged'] = n
+  else:
+    import re
+    upto = int(re.match(r"step (\d+)", msg).group(1)) + 1
+    res['violations'].append(dict(key='Bits slice write sequence', what=msg, replay=REPLAY_SEQ % dict(upto=upto)))
+  res['twins_expected'] = 0
+  res['distinct'].append('index/sequence')
+  res['samples'].append(f"{n} slice writes / reads / bit writes in one process on widths 8..1023, revisiting bounds across widths")
+  return res.r
+
+
 def dispatch(it):
-  return {'index': item_index, 'helper': item_helper, 'clog2': item_clog2}[it['kind']](it)
+  return {'index': item_index, 'helper': item_helper, 'clog2': item_clog2, 'clog2_table': item_clog2_table, 'sequence': item_sequence}[it['kind']](it)
 
 
 def main():
@@ -361,6 +452,8 @@ def main():
              [255, 255, 255, 255], [255, 256, 256, 256]):
     items.append(dict(kind='helper', what='concat', ws=ws))
   items.append(dict(kind='clog2', bits=64))
+  items.append(dict(kind='clog2_table'))
+  items.append(dict(kind='sequence'))
   items.append(dict(kind='clog2', bits=5))      # small explicit domain: an implementation that renders N (bin/str) is enumerated, not lost
   if tier == 'thorough': items.append(dict(kind='clog2', bits=1024))
   items.sort(key=lambda it: -(it.get('n') or max(it.get('ws', [0])) or it.get('bits', 0)))
